@@ -59,9 +59,8 @@ impl GameMods {
     /// `1.0`.
     pub(crate) fn clock_rate(&self) -> f64 {
         match self {
-            Self::Lazer(ref mods) => mods
-                .iter()
-                .find_map(|m| {
+            Self::Lazer(ref mods) => {
+                let rate_of = |m: &GameMod| {
                     let default = match m.intermode() {
                         GameModIntermode::DoubleTime | GameModIntermode::HalfTime => {
                             return m.clock_rate()
@@ -72,9 +71,37 @@ impl GameMods {
                     };
 
                     Some(default * (m.clock_rate()? / default))
-                })
-                .unwrap_or(1.0),
-            Self::Intermode(ref mods) => mods.legacy_clock_rate(),
+                };
+
+                let speeds_up = |m: &&GameMod| {
+                    matches!(
+                        m.intermode(),
+                        GameModIntermode::DoubleTime | GameModIntermode::Nightcore
+                    )
+                };
+
+                // Same precedence as `GameModsLegacy::clock_rate` so that
+                // DT+HT means the same in every representation
+                mods.iter()
+                    .filter(speeds_up)
+                    .find_map(rate_of)
+                    .or_else(|| mods.iter().find_map(rate_of))
+                    .unwrap_or(1.0)
+            }
+            Self::Intermode(ref mods) => {
+                // Same precedence as `GameModsLegacy::clock_rate`
+                if mods.contains(GameModIntermode::DoubleTime)
+                    || mods.contains(GameModIntermode::Nightcore)
+                {
+                    1.5
+                } else if mods.contains(GameModIntermode::HalfTime)
+                    || mods.contains(GameModIntermode::Daycore)
+                {
+                    0.75
+                } else {
+                    1.0
+                }
+            }
             Self::Legacy(mods) => mods.clock_rate(),
         }
     }
